@@ -8,7 +8,7 @@ ANAMES = ["x", "_z", "r#in", "request", "resp", "msg", "req", "service", "the_ct
 ATTRS = ["", '#[doc = "d"]', "#[cfg(all())]", "#[cfg(any())]"]
 DERIVES = ["", "derive = [Clone, Hash]", "derive_serde = false"]
 RETS = ["unit", "u32", "tuple"]
-TYPES = ["u32s", "mixed", "u8s"]
+TYPES = ["u32s", "mixed", "u8s", "opts"]
 
 def camel(s):
     s = s.replace("r#", "")
@@ -22,7 +22,13 @@ def camel(s):
 def arg_types(kind, arity):
     if kind == "u32s": return ["u32"] * arity
     if kind == "u8s": return ["u8"] * arity
+    # optional arguments, absent and present, leading and trailing (a positional codec must not
+    # lose their place: seeded change C17j skipped absent ones on the wire)
+    if kind == "opts": return [["Option<u8>", "u8", "Option<u16>"][i % 3] for i in range(arity)]
     return [["u32", "String", "u8"][i % 3] for i in range(arity)]
+
+def opt_absent(ty, i):
+    return (ty == "Option<u8>" and i % 2 == 0) or (ty == "Option<u16>" and i % 2 == 1)
 
 def weights(arity):
     # distinct weights so that any permutation of the arguments changes the value
@@ -30,14 +36,24 @@ def weights(arity):
 
 def arg_value(ty, i):
     v = i + 1
+    if ty.startswith("Option<"):
+        return "None" if opt_absent(ty, i) else f"Some({v}{ty[7:-1]})"
     return {"u32": f"{v}u32", "String": f'"{"s"*v}".to_string()', "u8": f"{v}u8"}[ty]
 
 def arg_as_u32(ty, name):
+    if ty.startswith("Option<"):
+        return f"({name}.map(|v| v as u32).unwrap_or(77))"
     return {"u32": f"({name} as u32)", "String": f"({name}.len() as u32)", "u8": f"({name} as u32)"}[ty]
 
+def arg_debug(ty, i):
+    if ty.startswith("Option<"):
+        return "None" if opt_absent(ty, i) else f"Some({i + 1})"
+    return {"u32": str(i + 1), "String": '\\"' + "s" * (i + 1) + '\\"', "u8": str(i + 1)}[ty]
+
 def expected_value(M, tys):
-    # f = M*1000 + a1*100 + a2*10 + a3 with a_i = i+1 (strings: their length = i+1)
-    return M * 1000 + sum((i + 1) * w for i, w in zip(range(len(tys)), weights(len(tys))))
+    # f = M*1000 + a1*100 + a2*10 + a3 with a_i = i+1 (strings: their length = i+1; an absent
+    # optional argument counts 77)
+    return M * 1000 + sum((77 if opt_absent(t, i) else i + 1) * w for i, t, w in zip(range(len(tys)), tys, weights(len(tys))))
 
 class Method:
     def __init__(self, idx, name, arity, tkind, ret, anames, attr):
@@ -160,7 +176,7 @@ def render(d, svc="Svc"):
         elif m.ret == "u32": check = f"matches!(got, Ok({exp}))"
         else: check = f"matches!(got, Ok(({exp}, {m.idx})))"
         L.append(f"            if !({check}) {{ fails.push(format!(\"method {m.name}: returned {{:?}}, expected {exp}\", got.map_err(|e| e.to_string()))); }}")
-        argdbg = "|".join({"u32": str(i + 1), "String": '\\"' + "s" * (i + 1) + '\\"', "u8": str(i + 1)}[t] for i, t in enumerate(m.tys))
+        argdbg = "|".join(arg_debug(t, i) for i, t in enumerate(m.tys))
         want = f"{m.idx}|{argdbg + '|' if argdbg else ''}"
         L.append("            let on_wire = wire.lock().unwrap().get(wb).cloned().unwrap_or_else(|| \"<no request seen on the wire>\".to_string());")
         L.append(f"            let callers = format!(\"{{}}/{'Sampled' if m.idx % 2 == 1 else 'Unsampled'}\", tarpc::trace::TraceId::from({5000 + m.idx}u128));")
